@@ -1437,6 +1437,18 @@ def cases(rng, ctx):
             for k in (3, 4):
                 out.append({'kind': 'fn', 'name': name, 'arity': k, 'sel': sorted(rng.sample(range(NPOOL ** k), m_sample)), 'cmp': cmp_})
 
+    # ---- (c') every registered function on NUMERIC EDGES written as literals: fractions between -1 and 1, zero, tiny and
+    # huge magnitudes, radix and table bounds (the loops of function bodies are bounded by argument validation: this is
+    # where a guard that truncates, floors or compares on the wrong side of zero stops guarding)
+    edges = ['-0.5', '0.5', '-0.000000001', '0.000000001', '0', '-0', '1', '-1', '1.5', '-1.5', '2', '36', '37', '255', '-255',
+             '10^15', '-10^15', '1*10^300', '-1*10^300', '2^53', '0.1', '-2.5']
+    for name in names:
+        items = ['%s(%s)' % (name, a) for a in edges]
+        items += ['%s(%s,%s)' % (name, a, b) for a in edges for b in edges]
+        tri = [(a, b, c) for a in edges[:12] + ['10^15'] for b in edges[:12] + ['10^15'] for c in edges[:12] + ['10^15']]
+        items += ['%s(%s,%s,%s)' % ((name,) + t) for t in rng.sample(tri, (40 if not thorough else 600) * scale)]
+        out.append({'kind': 'strings', 'stream': 'fn-edge', 'items': items})
+
     # ---- (d) host callbacks
     for how in RET_HOWS + RAISE_HOWS + REENTER_HOWS:
         out.append({'kind': 'host', 'where': 'fn', 'how': how, 'items': FN_FORMS,
